@@ -104,6 +104,31 @@ static void do_item(long i)
     for (a = 0; a < 5; a++) one_stream(&CIPHERS[ITEMS[i].c], ITEMS[i].kp, ITEMS[i].api, ITEMS[i].ic, ALS[a]);
 }
 
+/* ---- isolated large lengths (block-count boundaries far above the dense range) ---- */
+static const size_t BIGL[] = { 4095, 4096, 4097, 8191, 8192, 8193, 16383, 16384, 16385, 65535, 65536, 65537, 131071, 131072, 131073, 1048575, 1048576, 1048577, 4194303, 4194305 };
+#define NBIGL (sizeof BIGL / sizeof BIGL[0])
+static void do_big(long it)
+{
+    const cipher *C = &CIPHERS[it / (long) NBIGL]; size_t len = BIGL[it % (long) NBIGL], i; unsigned char key[32], nonce[24]; char keystr[160];
+    unsigned char *ks = malloc(len + 64), *m = malloc(len + 64), *o = malloc(len + 96); int api, r; uint64_t ic;
+    if (len > 1100000 && !thorough) { free(ks); free(m); free(o); return; }
+    vf_pat(key, 32, PAT_R1, 71); vf_pat(nonce, 24, PAT_C, 72); vf_pat(m, len, PAT_R2, 73);
+    for (api = 0; api < 3; api++) {
+        if (api == 2 && C->ctrbits == 0) continue;
+        ic = api == 2 ? (C->ctrbits == 32 ? 0xfffe0000ULL : 0xffffffffffff0000ULL + 0 * 1) : 0;      /* counters whose low 16 bits carry inside the request */
+        if (api == 2 && C->ctrbits == 32 && (len + 63) / 64 > 0x20000) continue;
+        if (api == 2 && C->ctrbits == 64) ic = 0xfffffff0ULL;                                          /* crosses 2^32 */
+        C->ref(ks, NULL, len, key, nonce, ic);
+        memset(o, 0xA5, len + 32);
+        if (api == 0) r = C->stream(o + 16, len, nonce, key);
+        else { for (i = 0; i < len; i++) ks[i] ^= m[i]; r = api == 1 ? C->xor(o + 16, m, len, nonce, key) : C->ctrbits == 32 ? C->xic32(o + 16, m, len, nonce, (uint32_t) ic, key) : C->xic64(o + 16, m, len, nonce, ic, key); }
+        n_eval++; n_nontriv++;
+        if (r != 0 || memcmp(o + 16, ks, len) || o[15] != 0xA5 || o[16 + len] != 0xA5) { size_t d = 0; while (d < len && o[16 + d] == ks[d]) d++;
+            snprintf(keystr, sizeof keystr, "%s/%s/len=%zu/ic=%" PRIu64 "/large", C->name, api == 0 ? "stream" : api == 1 ? "xor" : "xor_ic", len, ic); vf_fail(keystr, "ret=%d first differing byte %zu", r, d); }
+    }
+    free(ks); free(m); free(o);
+}
+
 /* ---- core functions ---- */
 static void cores(void)
 {
@@ -222,6 +247,7 @@ int main(void)
         if (CIPHERS[c].ctrbits == 32) for (i = 0; i < nctr32; i++) add_item((int) c, kp, 2, CTR32[i]);
     }
     vf_parallel(16, 0, nitems, do_item, fin);
+    vf_parallel(16, 0, (long) (NCIPH * NBIGL), do_big, fin);
     cores();
     limit_probes();
     fin();
